@@ -327,6 +327,8 @@ def run_abort_case(case):
             probes['blocks_aborted'] = 1
             if wrote:
                 probes['abort_after_write'] = 1
+                if '"big"' in json.dumps([b for b in (blk['body'] if blk.get('raise_at') is None else blk['body'][:blk['raise_at']])]):
+                    probes['abort_after_file_write'] = 1
             if after != before:
                 violations.append({'rule': 'C06/abort-restores-contents', 'sig': kind,
                                    'detail': 'block %s aborted; before %s after %s' % (
